@@ -190,7 +190,7 @@ def replay_case(case):
     k = case["kind"]
     if k == "set":
         cfg = [(c[0], c[1], c[2], _unj(c[3])) for c in case["cfgdata"]]
-        return judge_set(cfg, case["layers"], case["txn"], case["site"])[1]
+        return judge_set(cfg, case["layers"], case["txn"], case["site"], parse=case.get("parse", True))[1]
     if k == "keys":
         return judge_keys(case["fn"], [(a, b) for a, b in case["keys"]], case["a"], case["b"], case["site"])
     if k == "badvalue":
@@ -413,6 +413,35 @@ def eval_block(block, acc):
             acc.outcomes[("list-len", target, st)] += 1
             for k2, detail in out:
                 acc.violation(k2, {"kind": "set", "cfgdata": [[a, b, c, _j(d)] for a, b, c, d in cfg], "layers": 1, "txn": 0, "site": f"list_payload_len={target}"}, detail)
+        # lists that name the same key more than once (same addressing form or mixed): still one item per entry, in order
+        ridx = sorted(reps.values())
+        for i1 in ridx:
+            for i2 in ridx[:4]:
+                if i1 == i2:
+                    continue
+                (n1, (k1, t1)), (n2, (k2, t2)) = DB[i1], DB[i2]
+                v1 = boundary_values(t1, False) or [L.nominal(t1)]
+                v2 = boundary_values(t2, False) or [L.nominal(t2)]
+                a, c, b = v1[0], v1[-1], v2[-1]
+                pats = {
+                    "name_twice": [(n1, k1, t1, a), (n2, k2, t2, b), (n1, k1, t1, c)],
+                    "id_twice": [(k1, k1, t1, a), (k2, k2, t2, b), (k1, k1, t1, c)],
+                    "name_and_id": [(n1, k1, t1, a), (k1, k1, t1, c)],
+                    "adjacent_same_value": [(n1, k1, t1, a), (n1, k1, t1, a)],
+                    "64_items_2_keys": [(n1, k1, t1, a) if j % 2 else (n2, k2, t2, b) for j in range(64)],
+                }
+                for pn, cfg in pats.items():
+                    st, out = judge_set(cfg, 1, 0, f"repeated_key|{pn}", parse=False)
+                    acc.evaluations += 1
+                    acc.outcomes[("repeated", pn, st)] += 1
+                    for k2_, detail in out:
+                        acc.violation(k2_, {"kind": "set", "cfgdata": [[a_, b_, c_, _j(d_)] for a_, b_, c_, d_ in cfg], "layers": 1, "txn": 0, "site": f"repeated_key|{pn}", "parse": False}, detail)
+                    for fn in ("del", "poll"):
+                        keys = [(x[0], x[1]) for x in cfg]
+                        out = judge_keys(fn, keys, 2 if fn == "del" else 0, 0, f"repeated_key|{pn}")
+                        acc.evaluations += 1
+                        for k2_, detail in out:
+                            acc.violation(k2_, {"kind": "keys", "fn": fn, "keys": [list(k) for k in keys], "a": 2 if fn == "del" else 0, "b": 0, "site": f"repeated_key|{pn}"}, detail)
         for n in (65, 66, 100):
             for fn in ("set", "del", "poll"):
                 st, out = too_long(fn, n)
